@@ -5,7 +5,7 @@ Property theorems only (helper lemmas: `Proofs/Client*.lean`).  Model:
 `Model/Client.lean`; matching relation: `Spec/Match.lean` (section 4.7), via the
 finished topic-trie theorems of C06.
 -/
-import Mqtt.Proofs.Client
+import Mqtt.Proofs.ClientTopics
 
 set_option linter.unusedSimpArgs false
 
@@ -14,6 +14,9 @@ open Mqtt.Iface.Broker (Pub Packet Bytes)
 open Mqtt.Iface.Client
 open Mqtt.Model.Client
 open Mqtt.Proofs.Client
+open Mqtt.Proofs.Topics (good)
+open Mqtt.Spec.Match (validName validFilter topicMatches)
+open Mqtt.Spec.TopicStore (Sub)
 
 /-! ## (f) Connect -/
 
@@ -148,5 +151,144 @@ example : runOuts init demoI =
       .deliver 9 { qos := 2, topic := [97, 47, 100], pktid := 102, payload := [4] }, .wrote (.pubcomp 100)]] ∧
     (runState init demoI).pub2in.length = 0 := by
   decide
+
+/-! ## (g) after a completed Subscribe the callback gets every matching message exactly once
+
+`TI c.topics store`: the client's topic trie is well-formed and holds exactly
+the (callback, filter, QoS) entries of the abstract store `store`
+(`Proofs/ClientTopics.lean`, on top of the C06 refinement `Inv`); it holds of a
+fresh client (`ti_new`) and is preserved by the Subscribe / Unsubscribe
+wrappers for `good` filters (`ti_subscribeDone`, `ti_unsubscribeDone`).
+`grantedOf (topics.zip codes)` are the filters of the request the SUBACK
+grants (return code 0, 1 or 2 and a valid filter); `deliveriesTo cb outs` the
+messages handed to callback `cb`; `onPublish c p` is what an inbound PUBLISH
+`p` dispatches - immediately for QoS 0 and 1, at its PUBREL for QoS 2
+(`C20_qos2_duplicates_suppressed`). -/
+
+/-- The statement of the property: after the SUBACK of a Subscribe has been
+processed, a delivered message invokes that request's callback exactly once if
+its topic matches one of the granted filters and not at all otherwise. -/
+def C20_dispatch_full : Prop :=
+  ∀ (c : C) (store : List Sub) (r : Req) (rest : Queue) (codes : List Nat) (p : Pub),
+    c.connected = true → TI c.topics store → c.suback = r :: rest → (∀ e ∈ rest, e.id ≠ r.id) →
+    (∀ e, rest.head? = some e → terminal e.state = false) → r.topics.length = codes.length →
+    (∀ t ∈ r.topics, good t.1 = true) → (∀ e ∈ store, e.sub ≠ r.cb) →
+    good p.topic = true → validName p.topic = true → p.qos ≤ 2 →
+    (deliveriesTo r.cb (onPublish (step c (.peer (.suback r.id codes))).1 p)).length =
+      if (grantedOf (r.topics.zip codes)).any (fun f => topicMatches f p.topic) then 1 else 0
+
+/-- **C20, dispatch (the part that holds).**  Let the oldest outstanding
+Subscribe `r` of a connected client (trie in step with `store`, `r`'s callback
+not yet registered anywhere, `r`'s filters without empty or `$`-led levels) be
+acknowledged by a SUBACK with one return code per filter.  Then for every
+message `p` (valid topic name without empty or `$`-led levels, QoS <= 2) for
+which at most one of the granted filters of `r` matches - the recorded
+exclusion E9: filters of one request that overlap on this topic - the dispatch
+of `p` invokes `r`'s callback exactly once if a granted filter matches the
+topic (section 4.7 matching, `Spec.Match.topicMatches`) and not at all
+otherwise; every message handed over has `p`'s topic and payload.  For QoS 0
+and QoS 1 the dispatch happens in the step that receives the PUBLISH. -/
+theorem C20_dispatch_partial (c : C) (store : List Sub) (r : Req) (rest : Queue) (codes : List Nat) (p : Pub)
+    (hc : c.connected = true) (hti : TI c.topics store) (hq : c.suback = r :: rest)
+    (hid : ∀ e ∈ rest, e.id ≠ r.id) (hh : ∀ e, rest.head? = some e → terminal e.state = false)
+    (hlen : r.topics.length = codes.length) (hgood : ∀ t ∈ r.topics, good t.1 = true)
+    (hfresh : ∀ e ∈ store, e.sub ≠ r.cb)
+    (hgp : good p.topic = true) (hn : validName p.topic = true) (hq2 : p.qos ≤ 2)
+    (hno : ∀ f ∈ grantedOf (r.topics.zip codes), ∀ g ∈ grantedOf (r.topics.zip codes),
+      topicMatches f p.topic = true → topicMatches g p.topic = true → f = g) :
+    (deliveriesTo r.cb (onPublish (step c (.peer (.suback r.id codes))).1 p)).length =
+      (if (grantedOf (r.topics.zip codes)).any (fun f => topicMatches f p.topic) then 1 else 0) ∧
+    (∀ m ∈ deliveriesTo r.cb (onPublish (step c (.peer (.suback r.id codes))).1 p),
+      m.topic = p.topic ∧ m.payload = p.payload ∧ m.qos ≤ p.qos) ∧
+    (p.qos = 0 → (step (step c (.peer (.suback r.id codes))).1 (.peer (.publish p))).2 =
+      onPublish (step c (.peer (.suback r.id codes))).1 p) ∧
+    (p.qos = 1 → (step (step c (.peer (.suback r.id codes))).1 (.peer (.publish p))).2 =
+      .wrote (.puback p.pktid) :: onPublish (step c (.peer (.suback r.id codes))).1 p) := by
+  have hc' : (step c (.peer (.suback r.id codes))).1.connected = true := step_connected c _ hc
+  rw [step_peer _ hc']
+  rw [step_peer c hc, peer_suback_head c r rest hq hid hh codes]
+  have hti' := ti_subscribeDone { c with suback := rest } { r with state := Mqtt.Generated.tSUBACK, codes := codes }
+    store hgood hti
+  have hl : (r.topics.length != codes.length) = false := by simp [hlen]
+  simp only [hl, Bool.false_eq_true, ↓reduceIte] at hti'
+  obtain ⟨hcount, hcontent⟩ := deliveries_count _ _ hti' p hgp hn hq2 r.cb
+  refine ⟨?_, hcontent, ?_, ?_⟩
+  · rw [hcount]
+    have hgz : ∀ tc ∈ r.topics.zip codes, good tc.1.1 = true :=
+      fun tc htc => hgood tc.1 (mem_zip_fst _ _ _ htc)
+    have hmem : ∀ f, f ∈ heldBy r.cb (grantStore r.cb store (r.topics.zip codes)) ↔
+        f ∈ grantedOf (r.topics.zip codes) := by
+      intro f
+      rw [heldBy_grantStore r.cb _ hgz f store]
+      have : f ∉ heldBy r.cb store := by
+        rw [mem_heldBy]
+        rintro ⟨e, he, hs, _⟩
+        exact hfresh e he hs
+      simp [this]
+    rw [length_filter_unique _ _ (heldBy_nodup _ _ hti'.nodup)
+      (fun a ha b hb => hno a ((hmem a).mp ha) b ((hmem b).mp hb))]
+    have : (heldBy r.cb (grantStore r.cb store (r.topics.zip codes))).any (fun f => topicMatches f p.topic) =
+        (grantedOf (r.topics.zip codes)).any (fun f => topicMatches f p.topic) := by
+      rw [Bool.eq_iff_iff, List.any_eq_true, List.any_eq_true]
+      exact ⟨fun ⟨f, hf, hm⟩ => ⟨f, (hmem f).mp hf, hm⟩, fun ⟨f, hf, hm⟩ => ⟨f, (hmem f).mpr hf, hm⟩⟩
+    rw [this]
+  · intro h0
+    simp [peer, h0]
+  · intro h1
+    simp [peer, h1]
+
+/-- It is false of the code as it is (finding E9): a request with the filters
+`a/+` and `a/b` registers its callback at two trie nodes; one delivered `a/b`
+invokes it twice. -/
+theorem C20_dispatch_counterexample : ¬ C20_dispatch_full := by
+  intro h
+  have := h (runState init [.connect (.connack false 0), .api (.subscribe 1 [([97, 47, 43], 1), ([97, 47, 98], 1)] 5 9)])
+    [] { id := 1, tag := 5, topics := [([97, 47, 43], 1), ([97, 47, 98], 1)], cb := 9 } [] [1, 1]
+    { qos := 0, topic := [97, 47, 98], payload := [7] }
+    (by decide) ti_new rfl (by simp) (by simp) (by decide) (by decide) (by simp) (by decide) (by decide)
+    (by decide)
+  exact absurd this (by decide)
+
+/-- a second subscriber's request (callback 9: `a/+` at QoS 1, `b`, and `c/#` refused by the
+server) completes on a client that already holds callback 3 for `#`; messages on `a/b`, `b`, `c/d` -/
+def demoG : List Ev :=
+  [.connect (.connack false 0),
+   .api (.subscribe 1 [([35], 0)] 0 3),
+   .peer (.suback 1 [0]),
+   .api (.subscribe 2 [([97, 47, 43], 1), ([98], 2), ([99, 47, 35], 1)] 5 9),
+   .peer (.suback 2 [1, 2, 128]),
+   .peer (.publish { qos := 1, topic := [97, 47, 98], pktid := 100, payload := [1] }),
+   .peer (.publish { qos := 0, topic := [98], payload := [2] }),
+   .peer (.publish { qos := 0, topic := [99, 47, 100], payload := [3] })]
+
+example : (runOuts init demoG).drop 4 =
+    [[.complete 5 true],
+     [.wrote (.puback 100),
+      .deliver 3 { qos := 0, topic := [97, 47, 98], pktid := 100, payload := [1] },
+      .deliver 9 { qos := 1, topic := [97, 47, 98], pktid := 100, payload := [1] }],
+     [.deliver 3 { qos := 0, topic := [98], payload := [2] }, .deliver 9 { qos := 0, topic := [98], payload := [2] }],
+     [.deliver 3 { qos := 0, topic := [99, 47, 100], payload := [3] }]] ∧
+    grantedOf ([(([97, 47, 43] : Bytes), 1), ([98], 2), ([99, 47, 35], 1)].zip [1, 2, 128]) = [[97, 47, 43], [98]] := by
+  decide
+
+/-- the hypotheses of `C20_dispatch_partial` are met: the request of `demoG` on a fresh connected
+client, message `a/b` (one granted filter matches) and message `c/d` (only the refused filter would) -/
+example :
+    let c := runState init [.connect (.connack false 0),
+      .api (.subscribe 2 [([97, 47, 43], 1), ([98], 2), ([99, 47, 35], 1)] 5 9)]
+    (deliveriesTo 9 (onPublish (step c (.peer (.suback 2 [1, 2, 128]))).1
+      { qos := 1, topic := [97, 47, 98], pktid := 100, payload := [1] })).length = 1 ∧
+    (deliveriesTo 9 (onPublish (step c (.peer (.suback 2 [1, 2, 128]))).1
+      { qos := 0, topic := [99, 47, 100], payload := [3] })).length = 0 := by
+  intro c
+  have h1 := (C20_dispatch_partial c [] { id := 2, tag := 5, topics := [([97, 47, 43], 1), ([98], 2), ([99, 47, 35], 1)], cb := 9 }
+    [] [1, 2, 128] { qos := 1, topic := [97, 47, 98], pktid := 100, payload := [1] }
+    (by decide) ti_new rfl (by simp) (by simp) (by decide) (by decide) (by simp) (by decide) (by decide) (by decide)
+    (by decide)).1
+  have h2 := (C20_dispatch_partial c [] { id := 2, tag := 5, topics := [([97, 47, 43], 1), ([98], 2), ([99, 47, 35], 1)], cb := 9 }
+    [] [1, 2, 128] { qos := 0, topic := [99, 47, 100], payload := [3] }
+    (by decide) ti_new rfl (by simp) (by simp) (by decide) (by decide) (by simp) (by decide) (by decide) (by decide)
+    (by decide)).1
+  exact ⟨h1, h2⟩
 
 end Mqtt.Properties.C20
